@@ -66,6 +66,7 @@ struct Runner : Hooks {
     std::vector<int> poll_truth;        // per source ground-truth ready bits at the underlying poll's return
     bool poll_returned = false;
     int polls = 0;
+    int64_t limit_ns = 0, first_poll_ns = 0, t0_ns = 0;
   };
   std::vector<OpCtx> octx;  // per thread
   std::vector<bool> skipped;  // ops that returned without running (e.g. new on an occupied slot)
@@ -98,6 +99,7 @@ struct Runner : Hooks {
   Pipe *pipe_by_id(int id) { return id >= 0 ? K->pipes[(size_t) id] : nullptr; }
   int truth_bits(const HState &h, int interests);
   uint64_t environ_hash();
+  int64_t octx_t0(Thread *t) { return octx[(size_t) t->tid].t0_ns ? octx[(size_t) t->tid].t0_ns : K->now_ns; }
   std::string fault_tag(int op);  // "fault=<call>@<side>" of the first fault that fired in that op, or "fault=none"
 
   // hooks
